@@ -54,6 +54,8 @@ module.exports = {
       const r = await checkJob(js[i], responses[i], faults, rng)
       bump('status:' + r.status)
       if (r.status === 'abort' || r.status === 'timeout' || r.status === 'harness') rep.inconclusive.push({ reason: 'harness-' + r.status, detail: clip(JSON.stringify(responses[i]), 300) })
+      if (r.status === 'err') rep.sets.rewriter_errors = (rep.sets.rewriter_errors || []).concat([clip(responses[i].err, 160) + ' <= ' + clip(js[i].meta.sigBase + ':' + (js[i].meta.variant || ''), 80)])
+      if (r.status === 'invalid-input') rep.sets.invalid_inputs = (rep.sets.invalid_inputs || []).concat([clip(r.detail, 100) + ' <= ' + js[i].meta.sigBase])
       if (r.status === 'inconclusive') rep.inconclusive.push({ reason: 'exec-timeout', detail: js[i].meta.sigBase })
       if (r.d) {
         rep.evaluations++
